@@ -265,7 +265,7 @@ fn unsolved_info(ctx: &mut Ctx, text: &str, cfg: &Cfg, run: &Run, tin: &[Tok]) -
                         if t.kind == "Identifier" || t.kind.starts_with("IdentifierOrKeyword") { "id".into() }
                         else if t.kind.starts_with("TextLiteral") || t.kind.starts_with("NumberLiteral") { "lit".into() }
                         else if t.kind == "Eof" { "eof".into() }
-                        else { t.text(text).to_ascii_lowercase() }
+                        else { t.text(text).to_ascii_lowercase().replace('[', "lbrack").replace(']', "rbrack") }
                     };
                     let mut found = false;
                     for &t in toks.iter().filter(|&&t| fin.kinds[t].starts_with("Comment(")).take(12) {
